@@ -333,7 +333,7 @@ func newC03Iso() *c03Iso {
 func (s *c03Iso) fail(kind, detail string) {
 	if s.err == nil {
 		path := strings.Join(s.path, "")
-		if strings.Contains(path, ".MA[") || strings.Contains(path, ".(map[string][2]*") {
+		if strings.Contains(path, ".MA[") || strings.Contains(path, ".(map[string][2]") {
 			// in a value of an array-valued map (map[string][2]*node)
 			kind += "-in-array-valued-map"
 		}
